@@ -1140,7 +1140,11 @@ class RPCInterface:
             in state ``SYNCHRONIZATION`` or has no Master instance to perform the request.
         """
         self._check_from_distribution()
-        self.supvisors.fsm.on_restart()
+        try:
+            self.supvisors.fsm.on_restart()
+        except RuntimeError as exc:
+            # no Master instance to perform the request
+            self._raise(SupvisorsFaults.BAD_SUPVISORS_STATE.value, 'restart', str(exc))
         return True
 
     def shutdown(self) -> bool:
@@ -1152,7 +1156,11 @@ class RPCInterface:
             in state ``SYNCHRONIZATION`` or has no Master instance to perform the request.
         """
         self._check_from_distribution()
-        self.supvisors.fsm.on_shutdown()
+        try:
+            self.supvisors.fsm.on_shutdown()
+        except ValueError as exc:
+            # no Master instance to perform the request
+            self._raise(SupvisorsFaults.BAD_SUPVISORS_STATE.value, 'shutdown', str(exc))
         return True
 
     def end_sync(self, master: str = '') -> bool:
